@@ -73,6 +73,7 @@ def _impl(tier, seed, search):
         tsc = max(1.0, float(np.linalg.norm(t0)), float(np.linalg.norm(t1)))
         # ---- trinterp (4x4) --------------------------------------------------------------------
         ok, Ts = L.noraise('trinterp', lambda: b.trinterp(T0, T1, s), inp, 'trinterp(T0, T1, s)')
+        T01 = Ts if ok else None
         if ok:
             if isinstance(Ts, Exception) or Ts is None:
                 L.check('trinterp', False, inp, 'trinterp returned an exception object / None instead of a matrix', sig='trinterp:returns-exception')
@@ -93,6 +94,10 @@ def _impl(tier, seed, search):
         if ok:
             if not isinstance(Rs, np.ndarray): L.check('trinterp-R', False, dict(R0=R0, R1=R1, s=s), 'trinterp on 3x3 matrices did not return a matrix', sig='trinterp-R:not-matrix')
             else: either_arc('trinterp-R:constant-rate', Rs, R0, ax, th, s, dict(R0=R0, R1=R1, s=s))
+            # the 3x3 and the 4x4 matrix interpolators (both request the shorter arc) give the same rotation
+            if isinstance(Rs, np.ndarray) and isinstance(T01, np.ndarray) and th < math.pi - 1e-3:
+                L.close('trinterp-R=trinterp-T', Rs, T01[:3, :3], TOL, 1.0, dict(R0=R0, R1=R1, s=s, rel_angle=th),
+                        what='trinterp on the 3x3 rotation matrices and on the 4x4 matrices holding them give different rotations', sig='trinterp-R=trinterp-T')
         # out-of-range s rejected
         for sbad in (-10.0 ** g.uniform(-9, 0), 1 + 10.0 ** g.uniform(-9, 0), -10.0 ** g.uniform(-15, -9), 1 + 10.0 ** g.uniform(-15, -9),
                      float(np.nextafter(1.0, 2.0)), float(np.nextafter(0.0, -1.0)), -1e-300):
